@@ -338,6 +338,24 @@ func (u *Unit) objVal(st *State, o types.Object) (Val, bool) {
 }
 
 func (u *Unit) eval(st *State, env *SpecEnv, e *Spec) (Val, error) {
+	u.evalDepth++
+	v, err := u.evalInner(st, env, e)
+	u.evalDepth--
+	if u.evalDepth == 0 && len(u.sideFacts) > 0 {
+		facts := u.sideFacts
+		u.sideFacts = nil
+		seen := map[Term]bool{}
+		for _, f := range facts {
+			if !seen[f] {
+				seen[f] = true
+				st.assume(f)
+			}
+		}
+	}
+	return v, err
+}
+
+func (u *Unit) evalInner(st *State, env *SpecEnv, e *Spec) (Val, error) {
 	switch e.Kind {
 	case SInt:
 		return intVal(sInt(e.Int)), nil
